@@ -20,7 +20,11 @@ and free_model's event count equals it as well.
 Second layer (lib/c14x_layer.py, model coq/Rt/HeapX.v): every type kind x three flag sets under
 RESET + re-decode (top level and member by member), extensible types and open type holders
 under faults at every byte of every encoding; leaf structures compared with the model on the
-byte level.  The oracle itself lives in lib/c14_util.py (check_history)."""
+byte level.  The oracle itself lives in lib/c14_util.py (check_history).
+Third layer (lib/c14w_layer.py + lib/c14w_enc.py, model coq/Rt/HeapW.v): decoder-internal refusals of well-formed hostile
+input (bomb guards, stack guard, unknown CHOICE index, announced counts / additions, repeated members, tag and length bombs)
+produced by independent encoders that can lie, and the encoder side of the lifecycle (asn_encode_to_new_buffer,
+uper_encode_to_new_buffer, xer_equivalent, xer_fprint on values no encoder accepts, every allocation failing in turn)."""
 import sys, os, re, json, subprocess, time
 from concurrent.futures import ThreadPoolExecutor
 sys.path.insert(0, os.path.join(os.path.dirname(os.path.abspath(__file__)), "..", "lib"))
@@ -28,6 +32,7 @@ from vlib import *
 from modcorpus import *
 from c14_util import *
 import c14x_layer
+import c14w_layer
 
 
 # ------------------------------------------------------------------ main
@@ -148,7 +153,7 @@ def main(tier):
             for i, d in enumerate(h["parsed"][:-1]):
                 if h.get("fail_ops") is not None and i not in h["fail_ops"]:
                     continue
-                if d["op"] in ("dec", "decr", "enc", "mrt") and int(d.get("a", "0")) > 0 and "skip" not in d:
+                if d["op"] in ("dec", "decr", "enc", "mrt", "nb", "unb", "xeq") and int(d.get("a", "0")) > 0 and "skip" not in d:
                     for k in ks_for(r, int(d["a"]), tier):
                         reps.append({"h": h, "i": i, "k": k, "ops": with_fail(h["ops"], i, k)})
         ro, exits2 = chunked(m["exe"], ["hist %s %s" % (x["h"]["case"]["tn"], ";".join(x["ops"])) for x in reps])
@@ -165,6 +170,13 @@ def main(tier):
         xunits = []
     tlog("c14x layer built: %d modules, %d histories" % (len(xunits), sum(len(hs) for _, hs in xunits)))
     units += xunits
+    try:
+        wunits = [] if os.environ.get("C14W_OFF") else c14w_layer.units(run, tier, model)
+    except (BuildError, RuntimeError) as e:
+        run.violation("build", {"what": "c14w layer: " + str(e)[-2500:]}, no_input=True)
+        wunits = []
+    tlog("c14w layer built: %d modules, %d histories" % (len(wunits), sum(len(hs) for _, hs in wunits)))
+    units += wunits
     pool = ThreadPoolExecutor(max_workers=NCPU)
     with ThreadPoolExecutor(max_workers=len(units) or 1) as ex:
         results = list(ex.map(work, units))
@@ -200,7 +212,8 @@ def main(tier):
             c = h["case"]
             line = "hist %s %s" % (c["tn"], ";".join(x["ops"]))
             run.case(line)
-            run.count("allocfail_%s_%s%s" % (h["parsed"][x["i"]]["op"], h["ops"][x["i"]].split(":")[-1 if h["parsed"][x["i"]]["op"] == "mrt" else 1], "_x" if h.get("layer") else ""))
+            o0 = h["ops"][x["i"]].split(":")
+            run.count("allocfail_%s_%s%s" % (h["parsed"][x["i"]]["op"], o0[-1 if h["parsed"][x["i"]]["op"] == "mrt" else 1] if len(o0) > 1 else "-", "_x" if h.get("layer") else ""))
             rep = {"module": m["text"], "asn1c_opts": " ".join(m.get("opts", ("-fcompound-names",))), "type": c["tn"], "model_type": c["ts"], "value": c["vs"], "history": h["kind"], "command_line": line,
                    "failing_op_index": x["i"], "failing_allocation": x["k"], "allocations_of_op": int(h["parsed"][x["i"]]["a"]),
                    "replay_cmd": "echo '%s' | <moddrv of the module built with %s and MODDRV_EXTRA=harness/moddrv_c14.inc>" % (line, WRAP[0])}
@@ -215,6 +228,8 @@ def main(tier):
     tlog("oracle done")
     if not os.environ.get("C14X_NOPOST"):        # (development switch: the C-side oracle alone)
         c14x_layer.post(run, results, model)
+    if not os.environ.get("C14W_NOPOST"):
+        c14w_layer.post(run, results, model)
     tlog("c14x faithfulness done")
     if os.environ.get("C14_DUMP"):
         json.dump(run.violations, open(os.environ["C14_DUMP"], "w"), indent=1)
